@@ -51,20 +51,23 @@ func (t ResetTransition) do(env *Environment) (err error) {
 		return errors.New("cannot transition in NIL environment")
 	}
 
-	taskmanMessage := task.NewTransitionTaskMessage(
-		workflow.GetActiveTasks(env.Workflow()),
-		sm.CONFIGURED.String(),
-		sm.RESET.String(),
-		sm.STANDBY.String(),
-		nil,
-		env.Id(),
-	)
-	t.taskman.MessageChannel <- taskmanMessage
+	// With no active tasks there is nothing to command: the transition succeeds at once
+	if activeTasks := workflow.GetActiveTasks(env.Workflow()); len(activeTasks) != 0 {
+		taskmanMessage := task.NewTransitionTaskMessage(
+			activeTasks,
+			sm.CONFIGURED.String(),
+			sm.RESET.String(),
+			sm.STANDBY.String(),
+			nil,
+			env.Id(),
+		)
+		t.taskman.MessageChannel <- taskmanMessage
 
-	incomingEv := <-env.stateChangedCh
-	// If some tasks failed to transition
-	if tasksStateErrors := incomingEv.GetTasksStateChangedError(); tasksStateErrors != nil {
-		return tasksStateErrors
+		incomingEv := <-env.stateChangedCh
+		// If some tasks failed to transition
+		if tasksStateErrors := incomingEv.GetTasksStateChangedError(); tasksStateErrors != nil {
+			return tasksStateErrors
+		}
 	}
 
 	env.sendEnvironmentEvent(&event.EnvironmentEvent{EnvironmentID: env.Id().String(), State: "RESET"})
